@@ -3,6 +3,7 @@ import Qryn.Proofs.InternalOpt
 import Qryn.Proofs.InternalJsonPath
 import Qryn.Proofs.InternalParams
 import Qryn.Proofs.InternalCompose
+import Qryn.Proofs.InternalEndToEnd
 import Qryn.Read.JsonPathSyntax
 import Qryn.Gen.InternalPlanner
 import Qryn.Gen.InternalParams
@@ -185,7 +186,7 @@ theorem stage_meets_logql_logfmtParams (E : Env V) (ps : List Ahead) (es : List 
 /-- one parameter: the general definition is the reading by lookup — the label is the text the path leads to (for a
     key that occurs twice the last occurrence that leads somewhere), "" when it leads nowhere or the line is not a
     readable document; other labels untouched. -/
-theorem jsonParam_single_is_lookup (readable : Bool) (n : Bytes) (p : List PathSeg) (doc : JVal) (l : Labels) :
+theorem jsonParam_single_is_lookup (readable : Bool) (n : Bytes) (p : List PathSeg) (doc : JVal) (l : Read.Labels) :
     jsonPathLabels readable [(n, p)] doc l = l.set n (if readable then (lookupPath doc p).getD [] else []) := by
   rw [jsonParams_distinct_lookup readable [(n, p)] (by simp) doc l]
   rfl
@@ -195,7 +196,7 @@ theorem jsonParam_single_is_lookup (readable : Bool) (n : Bytes) (p : List PathS
     parameters and of the members of the document (`jsonParamLabels` goes through the parameters in order; the engine
     goes through the document). -/
 theorem jsonParams_distinct_is_lookup (readable : Bool) (ps : List Ahead) (hd : (ps.map (·.1)).Nodup) (doc : JVal)
-    (l : Labels) : jsonPathLabels readable ps doc l = jsonParamLabels readable ps doc l :=
+    (l : Read.Labels) : jsonPathLabels readable ps doc l = jsonParamLabels readable ps doc l :=
   jsonParams_distinct_lookup readable ps hd doc l
 
 /-- following a path finds the LAST value of the document (document order, a composite before its members) that has
@@ -669,13 +670,265 @@ theorem split_assumption_fresh_script :
   refine ⟨rfl, rfl, rfl, rfl, rfl, rfl, rfl, ?_⟩
   decide +kernel
 
+/-! ## 3b. the two engines on the same data: SQL semantics of the REAL statement, then the in-process stage
+
+`Sql.evalSelX` on `LogQL.planLogX` is the semantics of the statement `clickhouse_planner` really builds (byte-equal text and
+reflection dump: C07's `textx` / `semx` streams; `plan_correct_ext`). `scanRows` is what `ClickhouseGetterPlanner.Scan` makes
+of its rows. The theorems below run the in-process model (`Read.runStage(s)`) on those rows and compare with the rows of
+the statement for the longer pipeline — "the same entries whichever engine ran the stage". Fingerprint *values* differ by
+construction (cityHash64 of the sorted pairs vs `internal_planner.fingerprint`): `core` forgets them; entries with equal
+timestamps come in an order ClickHouse leaves open: the statements say "a permutation, both ordered by timestamp". -/
+
+/-- the rows ClickHouse returns for the stream selector followed by the stages `q` when the script is handed over
+    (`finalize = false`: ORDER BY timestamp, no LIMIT), as the getter scans them -/
+def chRows (N : NumOps V) (o : Oracles) (c : LogQL.Ctx) (d : LokiDb) (ms : List Matcher) (q : List StageX) : List (Entry V) :=
+  scanRows N (evalSelX o (d.toDb c) (planLogX c false ⟨ms, q⟩))
+
+/-- `planScript` (what `logql_transpiler_v2.Plan` sends to ClickHouse) of a script that is handed over after `q` -/
+theorem planScript_handover (c : LogQL.Ctx) (ms : List Matcher) (q : List StageX) (tag : String) (rest : List ScriptStage) :
+    planScript c ms (q.map .sql ++ .inproc tag :: rest) = planLogX c false ⟨ms, q⟩ := by
+  have h1 : sqlPrefix (q.map ScriptStage.sql ++ .inproc tag :: rest) = q := by
+    induction q with
+    | nil => rfl
+    | cons s r ih => simp only [List.map_cons, List.cons_append, sqlPrefix, ih]
+  have h2 : finalizes (q.map ScriptStage.sql ++ .inproc tag :: rest) = false := by
+    simp [finalizes, ScriptStage.breaks]
+  simp only [planScript, h1, h2]
+
+theorem chRows_proper (N : NumOps V) (o : Oracles) (c : LogQL.Ctx) (d : LokiDb) (ms : List Matcher) (q : List StageX) :
+    ∀ e ∈ chRows N o c d ms q, e.err = none := by
+  intro e he
+  simp only [chRows, scanRows, List.mem_map] at he
+  obtain ⟨r, _, rfl⟩ := he
+  rfl
+
+/-- one stage is its LogQL definition (the step of `stages_meet_logql`) -/
+theorem stage_meets_logql (E : Env V) (h0 : E.o.isNum [] = false) (s : StageK V) (es : List (Entry V))
+    (hp : ∀ e ∈ es, e.err = none) : stageFlat E s es = Stages.stage E s es :=
+  (stages_meet_logql E h0 [s] es hp).1
+
+/-- **engines_agree_stage — every stage both engines implement, any split point, all data.** Let ClickHouse run the stages
+    `q` (any pipeline of the C07 fragment whose label maps have no key twice) and hand its rows over in any batching; let
+    the in-process engine run `s` — a line filter `|= != |~ !~`, a label filter (string / numeric, and / or), `| json`
+    with path parameters naming pairwise different labels, or `| drop`. The entries it sends are a permutation of the rows
+    ClickHouse returns for `q` followed by that stage, both ordered by timestamp: the same lines with the same
+    timestamps and the same label sets. Hypotheses: `Bridge` (same RE2 / number oracles; ClickHouse's JSON path extraction
+    reads the decoder's tree), `LikeOk` (the LIKE shortcut decides as RE2), `SeriesTableOk` (label filters before the
+    first parser are decided on the series table), at most 63 matchers and distinct table names (`plan_correct_ext`). -/
+theorem engines_agree_stage (o : Oracles) (E : Env V) (hb : Bridge o E) (h0 : E.o.isNum [] = false)
+    (like : Bytes → Option LikeInfo) (hl : LikeOk o like) (c : LogQL.Ctx) (hn : c.namesOk) (d : LokiDb) (hd : SeriesTableOk c d)
+    (ms : List Matcher) (hm : ms.length ≤ 63) (q : List StageX) (hnd : ∀ e ∈ baseX o c d ms q, NodupKeys e.labels)
+    (s : StageK V) (sx : StageX) (hs : toStageX like s = some sx) (hok : SharedOk s)
+    (bs : Batches V) (hbs : bs.flatten = chRows E.num o c d ms q) :
+    ((runStage E s bs).flatten.map core).Perm ((chRows E.num o c d ms (q ++ [sx])).map core) ∧
+    (runStage E s bs).flatten.Pairwise (fun a b => entLe c a b = true) ∧
+    (chRows E.num o c d ms (q ++ [sx])).Pairwise (fun a b => entLe c a b = true) := by
+  have hrows : ∀ q', chRows E.num o c d ms q' = scanRows E.num (evalLogX o c false d ⟨ms, q'⟩) := by
+    intro q'
+    simp only [chRows, planLogX_correct o c hn d ⟨ms, q'⟩ false hm]
+  rw [batching_invariant_stage, hbs, stage_meets_logql E h0 s _ (chRows_proper E.num o c d ms q)]
+  refine ⟨?_, ?_, ?_⟩
+  · rw [hrows, hrows]
+    have h1 := (stage_perm E s _ _ (scanRows_evalLogX_perm E.num o c d ms q)).map core
+    have h2 := (bridge_stage o E hb like hl s sx hs hok (baseX o c d ms q) hnd).1
+    have h3 := ((scanRows_evalLogX_perm E.num o c d ms (q ++ [sx])).map core).symm
+    rw [baseX_snoc o c d hd] at h3
+    exact h1.trans (h2 ▸ h3)
+  · rw [hrows]
+    exact stage_sorted E c s _ (scanRows_evalLogX_sorted E.num o c d ms q)
+  · rw [hrows]
+    exact scanRows_evalLogX_sorted E.num o c d ms (q ++ [sx])
+
+/-- a prefix of shared stages over stored label documents without a repeated name yields no label map with a key twice -/
+theorem shared_prefix_nodup (o : Oracles) (E : Env V) (hb : Bridge o E) (like : Bytes → Option LikeInfo) (hl : LikeOk o like)
+    (c : LogQL.Ctx) (d : LokiDb) (hd : SeriesStoreOk o c d) (ms : List Matcher)
+    (ch : List (StageK V)) (chX : List StageX) (hch : ch.mapM (toStageX like) = some chX) (hok : ∀ s ∈ ch, SharedOk s) :
+    ∀ e ∈ baseX o c d ms chX, NodupKeys e.labels := by
+  rw [baseX_stages o c d hd.toSeriesTableOk]
+  exact (bridge_stages o E hb like hl ch chX hch hok _ (selX_nodup o c d hd ms)).2
+
+/-- **line filters** `|=`, `!=`, `|~`, `!~` — for `|~` / `!~` whichever way the ClickHouse planner renders the pattern
+    (`match(…)`, or LIKE / position when regexp/syntax reduces it to one literal: `like val`) -/
+theorem engines_agree_lineFilter_sql (o : Oracles) (E : Env V) (hb : Bridge o E) (h0 : E.o.isNum [] = false)
+    (like : Bytes → Option LikeInfo) (hl : LikeOk o like) (c : LogQL.Ctx) (hn : c.namesOk) (d : LokiDb) (hd : SeriesTableOk c d)
+    (ms : List Matcher) (hm : ms.length ≤ 63) (q : List StageX) (hnd : ∀ e ∈ baseX o c d ms q, NodupKeys e.labels)
+    (op : LineOp) (val : Bytes) (bs : Batches V) (hbs : bs.flatten = chRows E.num o c d ms q) :
+    ((runStage E (.line op val) bs).flatten.map core).Perm
+      ((chRows E.num o c d ms (q ++ [.fl (.line ⟨op, val, match op with | .re | .nre => like val | _ => none⟩)])).map core) :=
+  (engines_agree_stage o E hb h0 like hl c hn d hd ms hm q hnd (.line op val) _ rfl trivial bs hbs).1
+
+/-- **label filters** (string `= != =~ !~`, numeric `== != > >= < <=`, `and` / `or`), on stored or extracted labels -/
+theorem engines_agree_labelFilter_sql (o : Oracles) (E : Env V) (hb : Bridge o E) (h0 : E.o.isNum [] = false)
+    (like : Bytes → Option LikeInfo) (hl : LikeOk o like) (c : LogQL.Ctx) (hn : c.namesOk) (d : LokiDb) (hd : SeriesTableOk c d)
+    (ms : List Matcher) (hm : ms.length ≤ 63) (q : List StageX) (hnd : ∀ e ∈ baseX o c d ms q, NodupKeys e.labels)
+    (lc : LabelCond) (bs : Batches V) (hbs : bs.flatten = chRows E.num o c d ms q) :
+    ((runStage E (.labelFilter lc) bs).flatten.map core).Perm ((chRows E.num o c d ms (q ++ [.fl (.label lc)])).map core) :=
+  (engines_agree_stage o E hb h0 like hl c hn d hd ms hm q hnd (.labelFilter lc) _ rfl trivial bs hbs).1
+
+/-- **`| drop a, b="v"`** -/
+theorem engines_agree_drop (o : Oracles) (E : Env V) (hb : Bridge o E) (h0 : E.o.isNum [] = false)
+    (like : Bytes → Option LikeInfo) (hl : LikeOk o like) (c : LogQL.Ctx) (hn : c.namesOk) (d : LokiDb) (hd : SeriesTableOk c d)
+    (ms : List Matcher) (hm : ms.length ≤ 63) (q : List StageX) (hnd : ∀ e ∈ baseX o c d ms q, NodupKeys e.labels)
+    (ns vs : List Bytes) (bs : Batches V) (hbs : bs.flatten = chRows E.num o c d ms q) :
+    ((runStage E (.drop ns vs) bs).flatten.map core).Perm ((chRows E.num o c d ms (q ++ [.ch (.drop (ns.zip vs))])).map core) :=
+  (engines_agree_stage o E hb h0 like hl c hn d hd ms hm q hnd (.drop ns vs) _ rfl trivial bs hbs).1
+
+/-- **`| json n₁="p₁", …`: the statement both engines must satisfy** — whatever the parameter names -/
+def engines_agree_jsonParams_full : Prop :=
+  ∀ (o : Oracles) (E : Env Int) (_ : Bridge o E) (ps : List Ahead) (es : List EntryX) (_ : ∀ e ∈ es, NodupKeys e.labels),
+    ((stageX o es (.ch (.json (ps.map (fun a => (a.1, a.2.map toJArg)))))).map (scanX E.num)).map core =
+      (Stages.stage E (.parser (.jsonParams ps)) (es.map (scanX E.num))).map core
+
+/-- **`| json` with parameters naming pairwise different labels**: the two engines agree (after the three `fix:` commits:
+    every named label set, "" when the path leads nowhere or the line is not one JSON document, objects and arrays as
+    their JSON text) -/
+theorem engines_agree_jsonParams_partial (o : Oracles) (E : Env V) (hb : Bridge o E) (h0 : E.o.isNum [] = false)
+    (like : Bytes → Option LikeInfo) (hl : LikeOk o like) (c : LogQL.Ctx) (hn : c.namesOk) (d : LokiDb) (hd : SeriesTableOk c d)
+    (ms : List Matcher) (hm : ms.length ≤ 63) (q : List StageX) (hnd : ∀ e ∈ baseX o c d ms q, NodupKeys e.labels)
+    (ps : List Ahead) (hnames : (ps.map (·.1)).Nodup) (bs : Batches V) (hbs : bs.flatten = chRows E.num o c d ms q) :
+    ((runStage E (.parser (.jsonParams ps)) bs).flatten.map core).Perm
+      ((chRows E.num o c d ms (q ++ [.ch (.json (ps.map (fun a => (a.1, a.2.map toJArg))))])).map core) :=
+  (engines_agree_stage o E hb h0 like hl c hn d hd ms hm q hnd (.parser (.jsonParams ps)) _ rfl hnames bs hbs).1
+
+/-! ### the recorded finding: a label named by two parameters of one `| json` -/
+def cxDoc : JVal := .obj [] (.cons [98] (.str [49]) (.cons [97] (.str [50]) .nil))     -- {"b":"1","a":"2"}
+
+def fromJArg : JArg → PathSeg
+  | .key k => .key k
+  | .idx i => .idx (i - 1).toNat
+
+theorem fromJArg_toJArg (s : PathSeg) : fromJArg (toJArg s) = s := by
+  cases s with
+  | key k => rfl
+  | idx i => simp [toJArg, fromJArg]
+
+/-- a ClickHouse whose JSON functions read the document `{"b":"1","a":"2"}` out of every line -/
+def cxO : Oracles :=
+  { reMatch := fun _ _ => false, jsonLabels := fun _ => [], isNum := fun _ => false, numCmp := fun _ _ _ => false, lower := id,
+    jsonField := fun _ js => (lookupPath cxDoc (js.map fromJArg)).getD [] }
+
+def cxOps : NumOps Int :=
+  { zero := 0, one := 1, add := (· + ·), div := (· / ·), lt := fun a b => decide (a < b), le := fun a b => decide (a ≤ b),
+    eq := fun a b => decide (a = b), ofNat := fun n => n, parse := fun _ => none, durSeconds := fun d => d / 1000000000 }
+
+def cxE : Env Int :=
+  { o := cxO, num := cxOps, jsonDecode := fun _ => cxDoc, jsonValid := fun _ => true, logfmtDecode := fun _ => [],
+    tpl := fun _ _ => none, hash := fun _ => 0 }
+
+theorem cxBridge : Bridge cxO cxE := by
+  refine ⟨rfl, fun line p => ?_⟩
+  have hmap : (p.map toJArg).map fromJArg = p := by
+    rw [List.map_map]
+    conv => rhs; rw [← List.map_id p]
+    apply List.map_congr_left
+    intro s _
+    exact fromJArg_toJArg s
+  have hb : hasBad cxDoc = false := by decide
+  simp only [cxO, cxE, hmap, hb, Bool.not_false, Bool.and_self, if_true]
+
+/-- **engines_agree_jsonParams_counterexample** (kernel-checked): `| json p="a", p="b"` over `{"b":"1","a":"2"}`. ClickHouse
+    builds `mapFromArrays(['p','p'], ['2','1'])` — a Map holding `p` twice, which the getter's Go map reads as `p=1` — the
+    in-process engine ends with the value that comes last in the document, `p=2`. -/
+theorem engines_agree_jsonParams_counterexample : ¬ engines_agree_jsonParams_full := by
+  intro h
+  have h1 := h cxO cxE cxBridge [([112], [.key [97]]), ([112], [.key [98]])] [⟨7, 1, [], []⟩]
+    (by intro e he; simp only [List.mem_singleton] at he; subst he; simp [NodupKeys])
+  have h2 := congrArg (List.map (fun e : Entry Int => e.labels)) h1
+  revert h2
+  decide
+
+/-- what each engine yields in the counterexample -/
+example : (stageX cxO [⟨7, 1, [], []⟩] (.ch (.json [([112], [.key [97]]), ([112], [.key [98]])]))).map (·.labels) =
+      [[([112], [50]), ([112], [49])]] ∧
+    (Stages.stage cxE (.parser (.jsonParams [([112], [.key [97]]), ([112], [.key [98]])])) [scanX cxOps ⟨7, 1, [], []⟩]).map (·.labels) =
+      [[([112], [50])]] := by decide
+
+/-! ### (b) the split, end to end: SQL semantics of the real prefix statement, then the in-process suffix -/
+
+/-- **split_end_to_end.** Take any pipeline `ss` and the split `(ch, internal)` the split function produces, with `ch` in
+    the fragment both engines have and C07 proves the SQL of (line filters, label filters, `| json` with path parameters
+    naming pairwise different labels, `| drop`; `chX` = the same stages as the ClickHouse planner sees them). Let ClickHouse
+    evaluate the statement the real planner builds for the selector and `ch` (`planScript` of the script, `finalize = false`:
+    `planScript_handover`) by the SQL semantics, let the getter scan the rows and cut them into messages in any way, and let
+    the in-process engine run `internal` on them. The entries it sends are — as a multiset, both sides ordered by
+    timestamp, fingerprint values apart — the LogQL definition of the WHOLE pipeline `ss` (`LogQL.Stages.stages`) applied
+    to the entries the selector alone yields. One named hypothesis about the stored data: `SeriesStoreOk`. -/
+theorem split_end_to_end (o : Oracles) (E : Env V) (hb : Bridge o E) (h0 : E.o.isNum [] = false)
+    (like : Bytes → Option LikeInfo) (hl : LikeOk o like) (c : LogQL.Ctx) (hn : c.namesOk) (d : LokiDb) (hd : SeriesStoreOk o c d)
+    (ms : List Matcher) (hm : ms.length ≤ 63)
+    (ss ch internal : List (StageK V)) (hsplit : splitPipeline ss = (ch, some internal))
+    (chX : List StageX) (hch : ch.mapM (toStageX like) = some chX) (hok : ∀ s ∈ ch, SharedOk s)
+    (bs : Batches V) (hbs : bs.flatten = chRows E.num o c d ms chX) :
+    ((runStages E internal bs).flatten.map core).Perm ((Stages.stages E ss (chRows E.num o c d ms [])).map core) ∧
+    (runStages E internal bs).flatten.Pairwise (fun a b => entLe c a b = true) ∧
+    (Stages.stages E ss (chRows E.num o c d ms [])).Pairwise (fun a b => entLe c a b = true) := by
+  have hcat : ch ++ internal = ss := by
+    have := split_shape ss
+    rw [hsplit] at this
+    exact this.1
+  have hrows : ∀ q', chRows E.num o c d ms q' = scanRows E.num (evalLogX o c false d ⟨ms, q'⟩) := by
+    intro q'
+    simp only [chRows, planLogX_correct o c hn d ⟨ms, q'⟩ false hm]
+  have hpb : ∀ e ∈ bs.flatten, e.err = none := by rw [hbs]; exact chRows_proper E.num o c d ms chX
+  rw [batching_invariant_stages, (stages_meet_logql E h0 internal bs.flatten hpb).1, hbs]
+  refine ⟨?_, ?_, ?_⟩
+  · rw [hrows, hrows]
+    -- the rows of the prefix are C07's entries, stage by stage; C07's reading of the shared stages is C09's
+    have hpre := scanRows_evalLogX_perm E.num o c d ms chX
+    rw [baseX_stages o c d hd.toSeriesTableOk] at hpre
+    have hbr := (bridge_stages o E hb like hl ch chX hch hok (selX o c d ms) (selX_nodup o c d hd ms)).1
+    have hsel := scanRows_evalLogX_perm E.num o c d ms []
+    have h1 := (stages_perm E internal _ _ hpre).map core
+    have h2 := stages_core E internal _ _ hbr
+    have h3 : Stages.stages E internal (Stages.stages E ch ((selX o c d ms).map (scanX E.num))) =
+        Stages.stages E ss ((selX o c d ms).map (scanX E.num)) := by
+      rw [← stages_append, hcat]
+    have h4 := ((stages_perm E ss _ _ hsel).map core).symm
+    rw [h2, h3] at h1
+    exact h1.trans h4
+  · rw [hrows]
+    exact stages_sorted E c internal _ (scanRows_evalLogX_sorted E.num o c d ms chX)
+  · rw [hrows]
+    exact stages_sorted E c ss _ (scanRows_evalLogX_sorted E.num o c d ms [])
+
+/-- **(a) `FpFaithful` of the upstream, derived.** When the ClickHouse part of a split pipeline consists of filters (so the
+    rows carry their stream's fingerprint and labels: one `time_series` row per fingerprint), the fingerprint identifies
+    the label set among the rows the getter hands over — under `SeriesStoreOk` alone. This is the hypothesis
+    `metricPlan_meets_logql` / `plan_meets_logql` make about the upstream when the in-process part (split at
+    `line_format`) rewrites no labels; with a label-rewriting stage in process it follows from `NoCollision`
+    (`metricOk_from_noCollision`). -/
+theorem upstream_fpFaithful (N : NumOps V) (o : Oracles) (c : LogQL.Ctx) (hn : c.namesOk) (d : LokiDb) (hd : SeriesStoreOk o c d)
+    (ms : List Matcher) (hm : ms.length ≤ 63) (fs : List Stage) : FpFaithful (chRows N o c d ms (fs.map .fl)) := by
+  simp only [chRows, planLogX_correct o c hn d ⟨ms, fs.map .fl⟩ false hm]
+  exact rows_fpFaithful N o c d hd ms fs
+
+/-- **(a) end to end, under the single hypothesis `SeriesStoreOk`.** A metric query split at `line_format` whose in-process
+    part rewrites no labels (filters, `line_format`, `unwrap`; no `by`/`without` in process), its ClickHouse part a
+    prefix of filters: for every batching of the rows the real statement returns (SQL semantics), the messages the engine
+    sends are the LogQL reading of the in-process plan over those rows — "fingerprint ↔ label set", which
+    `metricPlan_meets_logql` assumed of the upstream, is now derived from the stored data (one label document per
+    fingerprint, fingerprint a function of the label set). Left as hypotheses: the series cap. -/
+theorem split_end_to_end_metric (o : Oracles) (E : Env V) (h0 : E.o.isNum [] = false) (c : LogQL.Ctx) (hn : c.namesOk) (d : LokiDb)
+    (hd : SeriesStoreOk o c d) (ms : List Matcher) (hm : ms.length ≤ 63) (fs : List Stage)
+    (rc : Read.Ctx) (p : Plan V) (hagg : p.agg.isSome = true)
+    (hnr : ∀ s ∈ p.stages, s.relabels = false) (hby : p.aggBy = none)
+    (hvec : ∀ fn bw cmp, p.vec = some (fn, bw, cmp) → bw = none)
+    (hcap : (firstBy (fun e : Entry V => e.fp) (aggInput E p (chRows E.num o c d ms (fs.map .fl)))).length ≤ rc.maxSeries)
+    (hcapVec : (firstBy (fun e : Entry V => e.fp) (vecInput E rc p (chRows E.num o c d ms (fs.map .fl)))).length ≤ rc.maxSeries)
+    (bs : Batches V) (hbs : bs.flatten = chRows E.num o c d ms (fs.map .fl)) :
+    runPlan E rc p bs = evalPlan E rc p (chRows E.num o c d ms (fs.map .fl)) := by
+  have hok : MetricOk E rc p bs.flatten := by
+    rw [hbs]
+    exact metricOk_of_upstream E rc p _ hagg hnr hby hvec hcap hcapVec (upstream_fpFaithful E.num o c hn d hd ms hm fs)
+  rw [metricPlan_meets_logql E h0 rc p hagg bs (by rw [hbs]; exact chRows_proper E.num o c d ms _) hok, hbs]
+
 /-! ## 4. series identity -/
 
 /-- **distinct_sets_distinct_series.** The texts handed to CityHash for the labels of a set determine the set:
     two label lists whose hashed texts agree as multisets (the fingerprint only sees the multiset: it sums, xors
     and multiplies the hashes) are the same set of labels. So distinct label sets can get the same fingerprint
     only through a collision of the hash itself. (Names shorter than 2⁶⁴ bytes: every Go string.) -/
-theorem distinct_sets_distinct_series (a b : Labels)
+theorem distinct_sets_distinct_series (a b : Read.Labels)
     (ha : ∀ kv ∈ a, kv.1.length < 2 ^ 64) (hb : ∀ kv ∈ b, kv.1.length < 2 ^ 64)
     (h : (a.map encodePair).Perm (b.map encodePair)) : a.Perm b :=
   perm_of_map_perm encodePair a b (fun x hx y hy e => encodePair_inj x y (ha x hx) (hb y hy) e) h
